@@ -757,6 +757,13 @@ class Cache:
                 # Not self._txn_created: another thread may own it by now.
                 for name in created:
                     _disk_remove(name)
+            elif filename is not None and not sql(
+                'SELECT rowid FROM Cache WHERE filename = ?', (filename,)
+            ).fetchall():
+                # Nested: the enclosing transaction goes on and may commit,
+                # and no row refers to the file written for this operation.
+                created.remove(filename)
+                _disk_remove(filename)
             raise
         else:
             if begin:
